@@ -73,6 +73,8 @@ def main(argv):
             return 1
         return 0
     rep = Report(pid, tier)
+    if tier == "thorough":
+        os.environ.setdefault("VERIF_OBL_TIMEOUT", "7200")
     crashed = None
     try:
         mod.run(rep)
